@@ -2,7 +2,7 @@
 use dlt_core::dlt::*;
 use dlt_core::filtering::{DltFilterConfig, ProcessedDltFilterConfig};
 use dlt_core::parse::verif_hooks as ph;
-use std::collections::HashSet;
+use dlt_core::filtering::verif_hooks::HashSet; // vector-backed model of the id sets (DESIGN.md 9.7)
 
 fn any_level() -> LogLevel {
     match kani::any::<u8>() % 7 {
@@ -163,9 +163,10 @@ fn c09_config_conversion_borrowed() {
 // ---- filtered_out decision table ---------------------------------------------
 // Real HashSet lookups are out of reach (measured: one concrete-string lookup in
 // a one-element set did not finish in 15 min of symbolic execution of hashbrown),
-// and Kani rejects a stub for the generic `HashSet::contains`. The id sets are
-// therefore absent or *empty* here (hashbrown answers `false` for an empty table
-// without hashing): every message is then "not in the allowed set".
+// and Kani rejects a stub for the generic `HashSet::contains`. Feature `verif_hooks`
+// therefore swaps the set type of ProcessedDltFilterConfig for a vector-backed model
+// with the same contains / len / from_iter contract (hook in src/filtering.rs);
+// filtered_out, skip_with_level and the conversions are the real code.
 
 /// The decision procedure for every combination of criteria with absent/empty
 /// sets, all message types and levels, arbitrary i64 id counts.
@@ -230,4 +231,152 @@ fn c09_filtered_out_decision_table() {
     kani::cover!(has_cfg && has_ext && r && !app_some && !ctx_some && !ecu_some, "dropped by level only");
     std::mem::forget(cfg);
     std::mem::forget(eh);
+}
+
+
+fn id_set(with: [bool; 4]) -> HashSet<String> {
+    // candidates: the message's application id, context id, ECU id, and an id the message does not carry
+    const CAND: [&str; 4] = ["AP1", "CT1", "EC1", "ZZZ"];
+    let mut s = HashSet::new();
+    let mut i = 0;
+    while i < 4 {
+        if with[i] {
+            s.insert(String::from(CAND[i]));
+        }
+        i += 1;
+    }
+    s
+}
+
+fn count4(w: &[bool; 4]) -> i64 {
+    w[0] as i64 + w[1] as i64 + w[2] as i64 + w[3] as i64
+}
+
+/// One concrete configuration of the three id sets (None = criterion absent, Some(flags) = the set holds the
+/// flagged candidates); message type, levels, ECU id presence, extended header presence and the id counts
+/// are symbolic.
+fn membership_case(app: Option<[bool; 4]>, ctx: Option<[bool; 4]>, ecu_set: Option<[bool; 4]>) {
+    let has_ext: bool = kani::any();
+    let has_ecu: bool = kani::any();
+    let min: Option<u8> = kani::any();
+    let min_level = match min {
+        Some(1) => Some(LogLevel::Fatal),
+        Some(2) => Some(LogLevel::Error),
+        Some(3) => Some(LogLevel::Warn),
+        Some(4) => Some(LogLevel::Info),
+        Some(5) => Some(LogLevel::Debug),
+        Some(6) => Some(LogLevel::Verbose),
+        _ => None,
+    };
+    let cfg = ProcessedDltFilterConfig {
+        min_log_level: min_level,
+        app_ids: app.map(id_set),
+        ecu_ids: ecu_set.map(id_set),
+        context_ids: ctx.map(id_set),
+        app_id_count: kani::any(),
+        context_id_count: kani::any(),
+    };
+    let eh = ExtendedHeader {
+        verbose: kani::any(),
+        argument_count: kani::any(),
+        message_type: any_message_type(),
+        application_id: String::from("AP1"),
+        context_id: String::from("CT1"),
+    };
+    let ecu = String::from("EC1");
+    let r = ph::filtered_out(if has_ext { Some(&eh) } else { None }, Some(&cfg), if has_ecu { Some(&ecu) } else { None });
+    let expect = if has_ext {
+        let by_level = match &min_level {
+            Some(m) => ref_skip(&eh.message_type, m).unwrap(),
+            None => false,
+        };
+        by_level || app.map_or(false, |w| !w[0]) || ctx.map_or(false, |w| !w[1]) || (has_ecu && ecu_set.map_or(false, |w| !w[2]))
+    } else {
+        app.map_or(false, |w| cfg.app_id_count > count4(&w)) || ctx.map_or(false, |w| cfg.context_id_count > count4(&w))
+    };
+    assert!(r == expect, "filter decision differs from the property's decision table (non-empty id sets)");
+    std::mem::forget(cfg);
+    std::mem::forget(eh);
+}
+
+// candidates: [0] the message's application id, [1] its context id, [2] its ECU id, [3] a foreign id
+const SUBSETS: [[bool; 4]; 7] = [
+    [false, false, false, false],
+    [true, false, false, false],
+    [false, true, false, false],
+    [false, false, true, false],
+    [false, false, false, true],
+    [true, true, true, false],
+    [false, true, true, true],
+];
+const OWN: [[bool; 4]; 3] = [[true, false, false, false], [false, true, false, false], [false, false, true, false]];
+
+/// The decision procedure with NON-EMPTY id sets: one criterion ranges over 7 subsets of {the message's
+/// application id, its context id, its ECU id, a foreign id} - so both outcomes of its lookup occur, as do sets that
+/// hold another of the message's ids but not the right one - while each of the other two criteria is absent or
+/// holds the message's own id. Everything else is symbolic per case.
+fn membership(vary: usize) {
+    let mut k = 0;
+    while k < 7 {
+        let mut o = 0;
+        while o < 4 {
+            let other1 = if o & 1 != 0 { Some(OWN[(vary + 1) % 3]) } else { None };
+            let other2 = if o & 2 != 0 { Some(OWN[(vary + 2) % 3]) } else { None };
+            let mut c: [Option<[bool; 4]>; 3] = [None, None, None];
+            c[vary] = Some(SUBSETS[k]);
+            c[(vary + 1) % 3] = other1;
+            c[(vary + 2) % 3] = other2;
+            membership_case(c[0], c[1], c[2]);
+            o += 1;
+        }
+        k += 1;
+    }
+    kani::cover!(true);
+}
+
+#[kani::proof]
+#[kani::unwind(9)]
+fn c09_filtered_out_membership_app() {
+    membership(0);
+}
+
+#[kani::proof]
+#[kani::unwind(9)]
+fn c09_filtered_out_membership_ctx() {
+    membership(1);
+}
+
+#[kani::proof]
+#[kani::unwind(9)]
+fn c09_filtered_out_membership_ecu() {
+    membership(2);
+}
+
+/// The conversions with NON-EMPTY id lists: the processed sets hold exactly the listed ids (duplicates collapse),
+/// owned and borrowed.
+#[kani::proof]
+#[kani::unwind(8)]
+fn c09_config_conversion_contents() {
+    let by_ref: bool = kani::any();
+    let cfg = DltFilterConfig {
+        min_log_level: kani::any(),
+        app_ids: Some(vec![String::from("AP1"), String::from("AP2"), String::from("AP1")]),
+        ecu_ids: Some(vec![String::from("EC1")]),
+        context_ids: None,
+        app_id_count: kani::any(),
+        context_id_count: kani::any(),
+    };
+    let p: ProcessedDltFilterConfig = if by_ref { ProcessedDltFilterConfig::from(&cfg) } else { ProcessedDltFilterConfig::from(cfg) };
+    match &p.app_ids {
+        Some(s) => assert!(s.len() == 2 && s.contains(&String::from("AP1")) && s.contains(&String::from("AP2")) && !s.contains(&String::from("EC1")), "application ids"),
+        None => assert!(false, "application id set lost"),
+    }
+    match &p.ecu_ids {
+        Some(s) => assert!(s.len() == 1 && s.contains(&String::from("EC1")), "ECU ids"),
+        None => assert!(false, "ECU id set lost"),
+    }
+    assert!(p.context_ids.is_none(), "context id set invented");
+    kani::cover!(by_ref);
+    kani::cover!(!by_ref);
+    std::mem::forget(p);
 }
